@@ -36,11 +36,14 @@ def main():
     tests = t.strip().splitlines()[-1] if t.strip() else ""
     demo = os.path.join(out, "demo.py")
     rc_with, o_with = sh([env.PY, demo], cwd=wt, envx=ex)
-    sh(["git", "-C", wt, "stash"])
+    # no `git stash`: the stash is shared by all linked worktrees of /repo and other agents may be using it
+    pf = os.path.join(dst, "patch.diff")
+    rc_r, o_r = sh(["git", "-C", wt, "apply", "-R", pf])
     try:
         rc_without, o_without = sh([env.PY, demo], cwd=wt, envx=ex)
     finally:
-        sh(["git", "-C", wt, "stash", "pop"])
+        if rc_r == 0:
+            sh(["git", "-C", wt, "apply", pf])
     ok = rc_t == 0 and rc_with != 0 and rc_without == 0
     shutil.copy(demo, os.path.join(dst, "demo.py"))
     if os.path.exists(os.path.join(out, "README.md")):
